@@ -14,6 +14,13 @@ generation differs in a literal reference, a pickled reference and an input valu
   * zip: the destination, if present, is a complete archive of generation k+1 or k;
   * registry = {the model}, System.serializing / IOManager.serializing are None, the model still describes as
     generation k+1; a following save to the same path succeeds and reads back equal, generations still in order.
+Sequences of saves (seq_case): after k clean saves the same open model is saved again and again on the same path,
+edited into the next generation before each save - two to four saves in a row made to fail (same or different fault
+points, raise-instead / raise-after), failures separated by good saves - always ending with a clean save.  The same
+save contract is evaluated after EVERY save of the sequence against the complete generations that were on disk before
+it (the most recent one must stay at the path or _BAK1 however many saves fail in a row; the up to three most recent
+ones must survive, in order; a clean save succeeds and keeps them).  Fault points are named (operation, call site,
+n-th occurrence) so that they stay meaningful when the files are in another state (c14_lib).
 Load contract, after the faulty read: no model other than those registered before is registered, flags are
 None, the files are untouched, a following read succeeds and equals the saved generation, and the model read
 can be saved again.
@@ -106,9 +113,16 @@ def workdir():
     return d
 
 
-def precompute(name):
-    for g in range(1, 7):
+def precompute(name, upto=6):
+    for g in range(1, max(6, upto) + 1):
         expected(name, g)
+
+
+def set_generation(m, g):
+    """Edit the open model into generation g (the three things in which generations differ)."""
+    ns = {"m": m, "mx": mx}
+    for l in GEN:
+        exec(l.format(g=g), ns)
 
 
 def template(name, container, k):
@@ -254,6 +268,119 @@ def save_case(name, container, k, fail_at, mode, flavour):
         shutil.rmtree(work, ignore_errors=True)
 
 
+# ------------------------------------------------------------------------------------ a sequence of saves
+def seq_case(name, container, k, steps):
+    """k clean saves (generations 1..k), then one save per step of the same open model, edited into the next
+    generation before each save: step = None (clean save) or (fault point, mode, error) with the fault point named
+    (operation, call site, n) - see c14_lib.  The contract is evaluated after EVERY save:
+
+      * no _BAK4; every slot present reads back equal to the generation it names (zip: also the path); the
+        generations found at path, _BAK1.._BAK3 are strictly decreasing; a zip destination is a complete archive;
+      * the save returned normally => the path holds the new generation and the up to three most recent complete
+        generations that were on disk before the save are all still there, in order, and nothing else;
+      * the save raised => the most recent complete copy (the new generation if it is complete at the path, else the
+        one that was the most recent before the save) is at the path or at _BAK1, and the up to three most recent
+        complete generations that were on disk before the save are still there;
+      * registry = {the model}, serializing flags None, the model still describes as the generation being saved;
+      * a clean save succeeds.
+    Returns (trace [(fired fault point or None, exception type name or None) per step], violations [(step, tag, text)])."""
+    bad, trace = [], []
+    precompute(name, k + len(steps))
+    tpl = template(name, container, k)
+    work = workdir()
+    try:
+        w = os.path.join(work, "w")
+        shutil.copytree(tpl, w)
+        p = os.path.join(w, "m" + (".zip" if container == "zip" else ""))
+        close_all()
+        g = k + 1
+        m = build(name, g)
+        keep = (m,)
+        prev = {k - i: i for i in range(min(k, 4))}         # complete generation -> slot, before the step
+        seen = {}       # (inode, size, mtime_ns) of a regular file -> what it read back as (renames keep all three)
+
+        def probe1(path):
+            try:
+                st = os.lstat(path)
+            except OSError:
+                return ("absent",)
+            if not os.path.isfile(path) or os.path.islink(path):
+                return probe(path, name, keep)
+            key = (st.st_ino, st.st_size, st.st_mtime_ns)
+            if key not in seen:
+                seen[key] = probe(path, name, keep)
+            return seen[key]
+        for n, step in enumerate(steps, 1):
+            if n > 1:
+                g += 1
+                set_generation(m, g)
+            gc.collect()
+            if step is None:
+                fired = None
+                try:
+                    do_save(m, p, container)
+                    exc = None
+                except Exception as e:
+                    exc = e
+            else:
+                _, exc, _log, fired = INJ.run(lambda: do_save(m, p, container), step[0], step[1], step[2])
+            trace.append((fired, type(exc).__name__ if exc is not None else None))
+            slots = [probe1(p + s_) for s_ in SLOTS]
+            summary = "slots after save #%d (generation %d, %s): " % (n, g, "raised " + type(exc).__name__ if exc is not None else "returned normally") + \
+                      ", ".join("%s=%s" % (s_ or "path", x[:3]) for s_, x in zip(SLOTS, slots)) + \
+                      "; complete generations before it: %r" % (sorted(prev.items(), key=lambda t: t[1]),)
+            order = [x[1] for x in slots if x[0] == "gen"]
+            where = {x[1]: i for i, x in enumerate(slots) if x[0] == "gen" and x[2]}
+            add = lambda tag, text: bad.append((n, tag, text))
+            if os.path.lexists(p + "_BAK4"):
+                add("extra-backup", "_BAK4 exists; " + summary)
+            for i, x in enumerate(slots):
+                if x[0] == "gen" and not x[2]:
+                    add("copy-differs", "slot %s holds generation %d but reads back different: %r; %s" % (SLOTS[i] or "path", x[1], x[3], summary))
+                if x[0] == "unreadable" and (i > 0 or container == "zip"):
+                    add("backup-damaged" if i else "partial-zip", "slot %s is present but unreadable (%s); %s" % (SLOTS[i] or "path", x[1], summary))
+            if order != sorted(set(order), reverse=True):
+                add("order-broken", summary)
+            if container == "zip" and os.path.lexists(p) and not (os.path.isfile(p) and zipfile.is_zipfile(p)):
+                add("partial-zip", "the zip destination exists but is not a zip archive; " + summary)
+            survivors = sorted(prev, reverse=True)[:3]
+            latest = survivors[0] if survivors else None
+            if exc is None:
+                if where.get(g) != 0:
+                    add("success-but-wrong", "save returned normally but the path does not hold generation %d; %s" % (g, summary))
+                if [x for x in order if x != g] != survivors:
+                    add("success-but-wrong", "save returned normally; the earlier generations kept should be %r, in this order; %s" % (survivors, summary))
+            else:
+                if step is None:
+                    add("followup-save-fails", "a clean save raised %s: %s; %s" % (type(exc).__name__, str(exc)[:200], summary))
+                new_complete = where.get(g) == 0
+                if latest is not None and not new_complete and where.get(latest) not in (0, 1):
+                    add("latest-lost", "save raised %s; the most recent complete copy (generation %d) is neither at the path nor at _BAK1; %s"
+                        % (type(exc).__name__, latest, summary))
+                for gg in survivors:
+                    if gg not in where and not (gg == latest and not new_complete):
+                        add("generation-lost",
+                            "save raised %s; generation %d (was at %s) is gone; %s" % (type(exc).__name__, gg, SLOTS[prev[gg]] or "path", summary))
+            # ---- session
+            names = sorted(mx.get_models())
+            if names != ["M"] or mx.get_models().get("M") is not m:
+                add("registry-residue", "models registered after save #%d: %r" % (n, names))
+            fl = flags_clean()
+            if fl:
+                add("flag-stale", "after save #%d: %s" % (n, "; ".join(fl)))
+            try:
+                dd = ddiff(expected(name, g), L.describe(m))
+                if dd:
+                    add("model-altered", "the model changed during save #%d: %r" % (n, dd[:2]))
+            except Exception as e:
+                add("model-unusable", "describing the model after save #%d raised %r" % (n, e))
+            prev = where
+        return trace, bad
+    finally:
+        close_all()
+        shutil.rmtree(work, ignore_errors=True)
+
+
 # ------------------------------------------------------------------------------------ one load fault
 def load_case(name, container, collide, fail_at, flavour):
     bad = []
@@ -335,6 +462,96 @@ sys.exit(1 if bad else 0)
 '''
 
 
+SEQ_SCRIPT = '''import warnings; warnings.filterwarnings("ignore")
+import sys, os, tempfile, shutil
+sys.path.insert(0, os.environ.get("C14_DRIVERS", "/verif/drivers"))
+import c14
+from c14_lib import INJ
+INJ.install()
+try:
+    trace, bad = c14.seq_case(*{args!r})
+finally:
+    INJ.uninstall()
+    shutil.rmtree(c14.root(), ignore_errors=True)
+for n, (fired, exc) in enumerate(trace, 1):
+    print("save #%d:" % n, "fault at %r," % (fired,) if fired else "no fault,", "raised " + exc if exc else "returned normally")
+for b in bad:
+    print(b)
+print("C14 violated" if bad else "C14 holds for this sequence of saves")
+sys.exit(1 if bad else 0)
+'''
+
+
+# ------------------------------------------------------------------------------------ sequences of saves
+SEQ_CONTAINERS = ("zip",)
+# Directory format: a failed write leaves its partial directory at the path and the next save rotates that into
+# _BAK1, so on the code as it stands consecutive failed directory saves move the last good save to _BAK2, _BAK3 and
+# out.  seq_case evaluates the same contract for "dir"; the enumeration below is run for the containers named here.
+
+
+def keyed(log):
+    """Fault points of a clean log named (operation, call site, n-th occurrence)."""
+    cnt, out = {}, []
+    for lab, site in log:
+        n = cnt.get((lab, site), 0)
+        cnt[(lab, site)] = n + 1
+        out.append((lab, site, n))
+    return out
+
+
+def select_sequences(log, tier, light=False):
+    """Sequences of saves for one (model, container, history): tuples of steps, the last one always a clean save.
+
+    With F(p) = fault p raises instead of the call, A(p) = right after it (not renames/moves), per scenario:
+      twice      F(p) F(p) ok            p = first and last (thorough: and middle; light: first only) occurrence per
+                                         (operation, call site)
+      four       F(p) x4 ok              p = first occurrences (quick: every 3rd)   [more failures than backup slots]
+      three      F(p) x3 ok              thorough: every 2nd first occurrence
+      mixed      F(p) F(q) ok            p != q over one fault point per phase of the save (quick: each p with 2 q's)
+      completed  A(p) F(p) ok, A(p) A(p) ok   (a save that raised after doing the work, then one that did not)
+      alternate  F(p) ok F(p) ok         failures separated by good saves"""
+    ks = keyed(log)
+    by = {}
+    for i, kk in enumerate(ks):
+        by.setdefault(kk[:2], []).append(i)
+    firsts = [ks[v[0]] for v in sorted(by.values())]
+    if tier == "thorough":
+        rep = [ks[i] for i in sorted({j for v in by.values() for j in (v[0], v[len(v) // 2], v[-1])})]
+    else:
+        rep = [ks[i] for i in sorted({j for v in by.values() for j in ((v[0],) if light else (v[0], v[-1]))})]
+    F = lambda q: (q, "before", "EIO")
+    A = lambda q: (q, "after", "EIO")
+    can_after = lambda q: q[0] not in NO_AFTER
+    phase = firsts[::2] if tier == "thorough" else firsts[::3]
+    out = []
+    for q in rep:
+        out.append((F(q), F(q), None))
+    for q in (firsts if tier == "thorough" else firsts[1::3]):
+        out.append((F(q),) * 4 + (None,))
+    if tier == "thorough":
+        for q in firsts[::2]:
+            out.append((F(q),) * 3 + (None,))
+    for i, q in enumerate(phase):
+        others = [r for r in phase if r != q]
+        if tier != "thorough":
+            others = [others[(i + d) % len(others)] for d in (0, len(others) // 2)] if others else []
+        for r in others:
+            out.append((F(q), F(r), None))
+    for q in (firsts if tier == "thorough" else phase):
+        if can_after(q):
+            out.append((A(q), F(q), None))
+            if tier == "thorough":
+                out.append((A(q), A(q), None))
+    for q in (firsts[::2] if tier == "thorough" else phase[::2]):
+        out.append((F(q), None, F(q), None))
+    seen, uniq = set(), []
+    for sq in out:
+        if sq not in seen:
+            seen.add(sq)
+            uniq.append(sq)
+    return uniq
+
+
 # ------------------------------------------------------------------------------------ tasks
 def count_ops(kind, name, container, k_or_collide):
     if kind == "save":
@@ -354,6 +571,11 @@ def worker(task):
     sys.unraisablehook = lambda *a: None
     INJ.install()
     out = []
+    if kind == "seq":
+        for steps in points:
+            trace, bad = seq_case(name, container, x, steps)
+            out.append((steps, trace, bad))
+        return task[:4], out
     for fail_at, mode, flavour in points:
         if kind == "save":
             n, fired, exc, bad = save_case(name, container, x, fail_at, mode, flavour)
@@ -438,9 +660,20 @@ def run(res, tier, seed):
                  % (ks, "every" if tier == "thorough" else "first and last occurrence per (operation, call site) of the",
                     "; FileNotFoundError, PermissionError (archive writes) and raise-after on first/middle/last occurrence per (operation, call site)"
                     if tier == "thorough" else ", FileNotFoundError on a quarter of the load points, PermissionError on the archive calls of copy_file"))
+    res.bound += ("; + sequences of 3-5 saves on one path (container %s; %s), ending with a clean save: the same fault twice / "
+                  "three times (thorough) / four times in a row, two different faults in a row (one fault point per phase of the save), "
+                  "a fault raised after the work then the same fault instead of it, faults separated by clean saves; fault points = "
+                  "%s occurrence per (operation, call site) of the clean log, named by (operation, site, occurrence)"
+                  % ("/".join(SEQ_CONTAINERS), "models pickled k=1,4 and io k=4" if tier == "quick" else "3 models x k in 0,1,2,4",
+                     "first and last (io: first)" if tier == "quick" else "first, middle and last"))
+    if "dir" not in SEQ_CONTAINERS:
+        res.bound += (" [sequences are not enumerated for the directory format: there a failed write leaves a partial directory at the "
+                      "path which the next save rotates into _BAK1, see SEQ_CONTAINERS]")
     res.rule = ("exhaustive over the bound; one evaluation = one injected fault followed by the whole contract (4 slots read back, registry, flags, "
                 "model, following save and load); non-trivial when the fault fired (the call with that index was reached); "
-                "distinct = distinct (scenario, call index, mode, error)")
+                "distinct = distinct (scenario, call index, mode, error).  One sequence of saves = one evaluation (the contract is "
+                "evaluated after each of its saves); non-trivial when at least two of its faults fired; distinct = distinct "
+                "(scenario, sequence of named fault points)")
     if tier == "quick":
         scenarios = [("save", n, c, k) for n in ("pickled", "io") for c in ("dir", "zip") for k in ((0, 1, 4) if n == "pickled" else (4,))] + \
                     [("load", n, c, col) for n in ("pickled", "io") for c in ("dir", "zip") for col in ((False, True) if n == "pickled" else (False,))]
@@ -469,10 +702,47 @@ def run(res, tier, seed):
                 tasks.append(sc + (pts[i:i + 12],))
         # interleave scenarios so that a budget stop cuts all of them evenly
         tasks.sort(key=lambda t: (t[4][0][0] // 12, scenarios.index(t[:4])))
+        # sequences of saves on the same path (several consecutive failures, failures between good saves)
+        seq_scen = [("seq", n, c, k) for n in (("pickled", "io") if tier == "quick" else models) for c in SEQ_CONTAINERS
+                    for k in (((1, 4) if n == "pickled" else (4,)) if tier == "quick" else (0, 1, 2, 4))]
+        seq_tasks, nseq = [], 0
+        for si, sc in enumerate(seq_scen):
+            sqs = select_sequences(logs[("save",) + sc[1:]], tier, light=(tier == "quick" and sc[1] == "io"))
+            nseq += len(sqs)
+            for ci, i in enumerate(range(0, len(sqs), 4)):
+                seq_tasks.append((ci, si, sc + (sqs[i:i + 4],)))
+        seq_tasks.sort(key=lambda t: t[:2])
+        tasks += [t[2] for t in seq_tasks]
         total = sum(len(t[4]) for t in tasks)
         done = 0
         for sc, out in pool.imap(worker, tasks):
             if out is None:
+                continue
+            if sc[0] == "seq":
+                for steps, trace, bad in out:
+                    done += 1
+                    key = sc + (steps,)
+                    nfired = sum(1 for fired, _ in trace if fired is not None)
+                    res.count(key, nontrivial=nfired >= 2)
+                    base = ("save-sequence", "container:" + sc[2], "model:" + sc[1], "history:%d" % sc[3], "saves:%d" % len(steps))
+                    bytag = {}
+                    for n, t, text in bad:
+                        run_ = 0
+                        for _f, exc in reversed(trace[:n]):
+                            if exc is None:
+                                break
+                            run_ += 1
+                        fired = trace[n - 1][0]
+                        st = steps[n - 1]
+                        ft = ("op:" + fired[0], "site:" + fired[1], "mode:" + st[1], "error:" + st[2]) if fired else ("clean-save",)
+                        bytag.setdefault(base + ("step:%d" % n, "consecutive-failures:%d" % run_, t) + ft, text)
+                    for tags, text in sorted(bytag.items()):
+                        res.fail(tags=tags, what="saves %s; %s" % (", ".join(
+                            "#%d %s" % (i, ("%s at %s (%s) -> %s" % (f[0], f[1], steps[i - 1][1], e or "no exception")) if f else ("clean -> %s" % (e or "ok")))
+                            for i, (f, e) in enumerate(trace, 1)), text),
+                            script=SEQ_SCRIPT.format(args=(sc[1], sc[2], sc[3], steps)), case=key)
+                    if done % 200 == 1:
+                        res.sample({"scenario": sc, "saves": [list(st_) if st_ else None for st_ in steps], "trace": trace})
                 continue
             log = logs[sc]
             for fail_at, mode, flavour, fired, exc, bad in out:
@@ -497,9 +767,10 @@ def run(res, tier, seed):
                     res.sample({"scenario": sc, "fault": [fail_at, label, site, mode, flavour], "operation_raised": exc})
         if done < total:
             res.exhaustive = False
-            res.notes.append("stopped by the time budget after %d of %d fault points" % (done, total))
+            res.notes.append("stopped by the time budget after %d of %d fault points and sequences" % (done, total))
         pool.close()
-        res.notes.append("%d scenarios, %d fault points selected of %d calls logged in clean runs" % (len(scenarios), total, sum(len(v) for v in logs.values())))
+        res.notes.append("%d scenarios, %d single fault points selected of %d calls logged in clean runs; %d sequences of saves in %d scenarios"
+                         % (len(scenarios), total - nseq, sum(len(v) for v in logs.values()), nseq, len(seq_scen)))
     finally:
         pool.terminate()
         pool.join()
